@@ -55,17 +55,23 @@ mod verif_bounded {
     }
     fn ids(v: &[Message]) -> Vec<u8> { v.iter().map(|m| m.id.as_bytes()[0]).collect() }
 
-    // C18: listing order, pages and last_message. Scope: 3 messages, (created_at, processed_at) in {10,20}^2 each (64 combinations),
-    // every insertion order (6), both sort orders, limit 1..=4, offset 0..=4.
+    // C18: listing order, pages and last_message. Scope (quick): 3 messages, (created_at, processed_at) in {10,20}^2 each (64 combinations),
+    // every insertion order for a quarter of them and two for the rest, both sort orders, limit 1..=4, offset 0..=4.
+    // Scope (VERIF_TIER=thorough): 4 messages (256 combinations), 4 rotations of the insertion order, limit 1..=5, offset 0..=5.
     #[test]
     fn listing_pages_and_last_message_follow_the_documented_total_orders() {
         let label = "sqlite_bounded.listing_pages_and_last_message";
+        let thorough = std::env::var("VERIF_TIER").as_deref() == Ok("thorough");
+        let n: usize = if thorough { 4 } else { 3 };
         let ts = [10u64, 20u64];
-        let orders: [[usize; 3]; 6] = [[0, 1, 2], [0, 2, 1], [1, 0, 2], [1, 2, 0], [2, 0, 1], [2, 1, 0]];
-        for combo in 0..64usize {
+        let mut orders: Vec<Vec<usize>> = vec![];
+        if thorough { for r in 0..n { orders.push((0..n).map(|i| (i + r) % n).collect()); } }
+        else { orders = vec![vec![0, 1, 2], vec![0, 2, 1], vec![1, 0, 2], vec![1, 2, 0], vec![2, 0, 1], vec![2, 1, 0]]; }
+        let maxp = if thorough { 5 } else { 4 };
+        for combo in 0..(1usize << (2 * n)) {
             let key = |i: usize| -> (u64, u64) { let c = (combo >> (2 * i)) & 3; (ts[c & 1], ts[(c >> 1) & 1]) };
             for (oi, order) in orders.iter().enumerate() {
-                if combo % 4 != 0 && oi > 1 { continue; } // every insertion order for a quarter of the combinations, two for the rest
+                if !thorough && combo % 4 != 0 && oi > 1 { continue; }
                 let (m, s) = stores();
                 m.save_group(group(1, 1)).unwrap(); s.save_group(group(1, 1)).unwrap();
                 for &i in order {
@@ -75,15 +81,15 @@ mod verif_bounded {
                 }
                 for so in [MessageSortOrder::CreatedAtFirst, MessageSortOrder::ProcessedAtFirst] {
                     // the documented order: (created, processed, id) resp. (processed, created, id), all descending
-                    let mut spec: Vec<u8> = vec![1, 2, 3];
+                    let mut spec: Vec<u8> = (1..=n as u8).collect();
                     spec.sort_by(|a, b| {
                         let (ca, pa) = key((*a - 1) as usize); let (cb, pb) = key((*b - 1) as usize);
                         let ka = if so == MessageSortOrder::CreatedAtFirst { (ca, pa, *a) } else { (pa, ca, *a) };
                         let kb = if so == MessageSortOrder::CreatedAtFirst { (cb, pb, *b) } else { (pb, cb, *b) };
                         kb.cmp(&ka)
                     });
-                    let scen = format!("keys(created,processed) m1={:?} m2={:?} m3={:?}, inserted in order {:?}, sort {:?}", key(0), key(1), key(2), order, so);
-                    for limit in 1..=4usize { for offset in 0..=4usize {
+                    let scen = format!("keys(created,processed) of m1..m{n} = {:?}, inserted in order {:?}, sort {:?}", (0..n).map(key).collect::<Vec<_>>(), order, so);
+                    for limit in 1..=maxp { for offset in 0..=maxp {
                         let pg = Pagination::with_sort_order(Some(limit), Some(offset), so);
                         let want: Vec<u8> = spec.iter().skip(offset).take(limit).cloned().collect();
                         let a = ids(&m.messages(&gid(1), Some(pg)).unwrap()); let b = ids(&s.messages(&gid(1), Some(pg)).unwrap());
